@@ -53,6 +53,10 @@ def gen_labels(rng, n):
     lab = [rng.randrange(K) for _ in range(n)]
     if K >= 2 and len(set(lab)) < 2 and n >= 2 and rng.random() < 0.9:
         lab[rng.randrange(n)] = (lab[0] + 1) % K
+    if rng.random() < 0.15:
+        # class identifiers need not be small: equal classes are equal numbers, whatever objects hold them
+        big = sorted(rng.sample([256, 257, 300, 1000, 2000, 65536, 100000, 2 ** 31 - 1], 4))
+        lab = [big[c] for c in lab]
     return lab
 
 
@@ -186,15 +190,44 @@ def run(rng, tier, res=None, want=("prim", "fit", "semi")):
                 Iq = [n + t if n + t < U else rng.randrange(U) for t in range(nq)]
                 if nq and rng.random() < 0.5:
                     Iq[0] = rng.randrange(n)
-                M = np.array([[float(fn(P_[a].copy(), P_[b].copy())) for b in range(U)] for a in range(U)])
                 X = P_[:nLab].copy(); XU = P_[nLab:n].copy(); Q = P_[Iq].copy() if nq else np.zeros((0, dd))
+                rows = [P_[a] for a in range(U)]
+                if cc is None and lattice and metric in ("euclidean", "manhattan", "log_squared_euclidean") and rng.random() < 0.5:
+                    # integer-typed training matrix (grid / count features) with fractional unlabeled samples and queries:
+                    # every sample competes from the coordinates the caller gave, whatever the dtype of the other arrays
+                    X = X.astype(np.int64)
+                    if semi and nU:
+                        XU = XU + np.array([[rng.choice([0.0, 0.25, 0.5, 0.9]) for _ in range(dd)] for _ in range(nU)])
+                    rows = [X[a] if a < nLab else (XU[a - nLab] if a < n else P_[a]) for a in range(U)]
+                    Q = np.array([np.asarray(rows[t], dtype=float) for t in Iq]) if nq else np.zeros((0, dd))
+                    res.hit("mixed_dtype_features")
+                M = np.array([[float(fn(rows[a].copy(), rows[b].copy())) for b in range(U)] for a in range(U)])
                 Xb, XUb, Qb = X.tobytes(), XU.tobytes(), Q.tobytes()
                 kind = "feat_" + metric
                 o = (SemiSupervisedOPF if semi else SupervisedOPF)(distance=metric)
+                # identifiers are irrelevant when the metric is evaluated on features: any distinct ids, including ones the
+                # library will also hand to the unlabeled samples (nLab..n-1), must give the same forest
+                It = np.array(rng.sample(range(0, n + 3), nLab)) if (cc is None and rng.random() < 0.4) else None
+                if It is not None:
+                    res.hit("feature_mode_with_index_array")
+                if cc is None and rng.random() < 0.3:
+                    # the object has a history: it was fitted (and used) on other data of the same size before
+                    Xh = np.array([[rng.uniform(0.2, 4.0) for _ in range(dd)] for _ in range(nLab)])
+                    Yh = np.array([lab[(t + 1) % nLab] for t in range(nLab)], dtype=int)
+                    try:
+                        if semi:
+                            o.fit(Xh, Yh, np.array([[rng.uniform(0.2, 4.0) for _ in range(dd)] for _ in range(nU)]).reshape(nU, dd))
+                        else:
+                            o.fit(Xh, Yh)
+                        if len(set(Yh.tolist())) >= 2:
+                            o.predict(Xh[:2].copy())
+                    except Exception:
+                        pass
+                    res.hit("refit_same_object_features")
                 if semi:
-                    o.fit(X, Y, XU)
+                    o.fit(X, Y, XU, I_train=It)
                 else:
-                    o.fit(X, Y)
+                    o.fit(X, Y, I_train=It)
                 Mbytes = M.tobytes()
             else:
                 if semi:
@@ -202,6 +235,20 @@ def run(rng, tier, res=None, want=("prim", "fit", "semi")):
                 else:
                     o = SupervisedOPF(distance="euclidean")
                 o.pre_computed_distance = True
+                if rng.random() < 0.3:
+                    # the object has a history: fitted and used on another matrix (same number of samples) before
+                    try:
+                        o.pre_distances = gen_matrix(rng, U, rng.choice(["a3", "real", "an"]))
+                        Yh = np.array([lab[(t + 1) % nLab] for t in range(nLab)], dtype=int)
+                        if semi:
+                            o.fit(X, Yh, np.zeros((nU, 1)), I_train=(np.array(I) if I is not None else None))
+                        else:
+                            o.fit(X, Yh, I_train=(np.array(I) if I is not None else None))
+                        if len(set(Yh.tolist())) >= 2:
+                            o.predict(np.zeros((1, 1)), I_val=np.array([rng.randrange(U)]))
+                    except Exception:
+                        pass
+                    res.hit("refit_same_object_matrix")
                 o.pre_distances = M
                 Mbytes = M.tobytes()
                 if semi:
